@@ -78,7 +78,15 @@ class Spec(dict):
 # ------------------------------------------------------------------ generation
 _DESC = st.sampled_from([None, None, None, None, "d", "A description.", "two\nlines", "with \"quotes\"", "  lead", "x\n  indented\nz",
                          "ends with a quote\"", "ends with a backslash\\", "has \"\"\" inside", "caf\u00e9 \U0001F600", "trailing space "])
-_DEPR = st.sampled_from([None, None, None, None, "", "No longer supported", "use other"])
+DEPR_EMPTY = "<empty-reason>"   # `@deprecated(reason: "")`; the spec value "" stands for `@deprecated` without a reason
+_DEPR = st.sampled_from([None, None, None, None, "", "No longer supported", "use other", DEPR_EMPTY])
+
+
+def depr_reason(d):
+    """spec value of `deprecated` -> the reason the schema must carry (None = not deprecated)"""
+    if d is None:
+        return None
+    return "No longer supported" if d == "" else "" if d == DEPR_EMPTY else d
 
 
 def _wrap_out(draw, base, allow_list=True):
@@ -382,7 +390,7 @@ def _depr(f):
         return _applied(f)
     if d == "":
         return " @deprecated" + _applied(f)
-    return " @deprecated(reason: %s)" % json.dumps(d) + _applied(f)
+    return " @deprecated(reason: %s)" % json.dumps(depr_reason(d)) + _applied(f)
 
 
 def _args_sdl(args, with_desc=False):
@@ -480,7 +488,7 @@ def build_code(spec, resolvers=None, order=None):
         out = []
         for f in fields:
             out.append(S.Field(f["name"], lazy_t(f["type"]), args=mk_args(f.get("args")), description=f.get("desc"),
-                               deprecation_reason=f.get("deprecated") if f.get("deprecated") != "" else "No longer supported",
+                               deprecation_reason=depr_reason(f.get("deprecated")),
                                resolver=(resolvers or {}).get((tname, f["name"]))))
         return out
 
@@ -491,7 +499,7 @@ def build_code(spec, resolvers=None, order=None):
             built[n] = default_scalar(n, description=t.get("desc"))
         elif k == "enum":
             built[n] = S.EnumType(n, [S.EnumValue(v["name"], v["value"], description=v.get("desc"),
-                                                  deprecation_reason=(v.get("deprecated") if v.get("deprecated") != "" else "No longer supported"))
+                                                  deprecation_reason=depr_reason(v.get("deprecated")))
                                       for v in t["values"]], description=t.get("desc"))
     for n, t in spec["types"].items():
         k = t["kind"]
